@@ -11,8 +11,8 @@ claimed = {
    text="Unbounded deductive proof: every header encoder (pb request/response MarshalTo/Marshal/Size, code request/response Marshal), the varint "
         "primitives of hslam/code (verified from the module source), checkBuffer and the upgrade byte meet a wire-format spec function written "
         "from the documented formats, for every field value, every length up to 2^47 and every capacity/content of the scratch buffer; varint loops are "
-        "unrolled to the operand width (10) with an unwinding assertion, which is complete. The default-header write paths (clientCodec.WriteRequest, serverCodec.WriteResponse) are proved to emit exactly that format for the request/response fields and to grow the scratch buffer on demand. That the decoders invert the encoders is NOT proved deductively: it is covered by a bounded stand-in only (labelled bounded in the evidence, see level_note).",
-   note=TRUST+"encoding/json is trusted (only struct tags are checked); the decoders are proved for safety and for 'accepted fields lie inside the frame' (C08); decode(encode(x)) == x is exercised by the bounded stand-in bounded/header_roundtrip_test.go (all four header paths, varint-boundary sequence numbers and lengths up to 16384, dirty buffers) and is not counted among the discharged obligations; "
+        "unrolled to the operand width (10) with an unwinding assertion, which is complete. The default-header write paths (clientCodec.WriteRequest, serverCodec.WriteResponse) are proved to emit exactly that format for the request/response fields and to grow the scratch buffer on demand. Decoders: the hslam/code primitives DecodeVarint/DecodeBytes/DecodeString are proved to invert the encode-side spec function (for every x: if the buffer holds the documented varint of x, the decoder returns x and consumes vsize(x) bytes; a length-prefixed field is returned as exactly the n bytes behind its prefix), and the real (*request).Unmarshal and (*response).Unmarshal (code format; one section cut per field) are proved, for every frame, to return exactly the fields the decode-side format describes and to accept every frame whose fields fit (varintSize/fieldSize decide exactly that). The last step of decode(encode(x)) == x - substituting the encoder's offsets into the decoder's - is a paper composition of these machine-checked contracts; it, the two protobuf decoders (functionally) and the json header are exercised by a bounded stand-in (labelled bounded in the evidence, see level_note).",
+   note=TRUST+"encoding/json is trusted (only struct tags are checked); all four decoders are proved for safety and for 'accepted fields lie inside the frame' (C08); the two code-format decoders also functionally (format cases, see above); functional cases for the two protobuf decoders (a tag-dispatch loop; unrolled to the field count under a canonical-frame precondition) were written and discharged when run alone, but needed 20-240 s per obligation under the check driver and were withdrawn rather than kept unstable; decode(encode(x)) == x end to end is exercised by the bounded stand-in bounded/header_roundtrip_test.go (all four header paths, varint-boundary sequence numbers and lengths up to 16384, dirty buffers) and is not counted among the discharged obligations; "
         "preconditions of the encoders (scratch buffer does not alias the fields) are checked at their in-repo call sites only where those are under contract.",
    design="5/C07", technique="contract-based deductive verification: generated WP obligations over go/ssa, discharged by z3"),
 
@@ -49,7 +49,7 @@ claimed = {
  "C18": dict(
    text="Deductive proof of the safety core: closed => no registered waiter (lock invariant at every Unlock of wait, Close, check, director, detect), Close and checkPending drain the "
         "waiter table completely (loop invariants over the ghost enumeration of the map), every registered key is below the sequence counter, close(done) happens at most once (typestate guarded by the CAS), "
-        "Alive marks a target dead only on ErrDial, and Call/CallWithContext issue no transport call when routing fails.",
+        "Alive marks a target dead only on ErrDial, Call/CallWithContext issue no transport call when routing fails, detect sweeps the waiters (checkPending) exactly once on every tick, and Transport.getConn/newPersistConn report ErrDial - the only error that marks a target down - whenever they cannot hand out a connection observed alive.",
    note=TRUST+"Every clause with a duration (detection time, DialTimeout) is liveness/timing and not decided; waiter release tokens are not tracked yet; the waiter sequence counter is assumed not to wrap.",
    design="5/C18", technique="contract-based deductive verification: lock invariant, loop invariants over map iteration, z3"),
 
@@ -64,9 +64,9 @@ claimed = {
  "C02": dict(
    text="Deductive proof of at-most-once completion by linear ghost tokens: a call's token is created once by the front-end (Go/Call/CallWithContext/Ping/closeStream, or owned by the caller of RoundTrip), handed to the pending table "
         "under Conn.mutex, taken out only by the thread that deletes the entry (read) or by the reader's final sweep, and consumed by (*Call).done; writes to Call.Error/Call.Value require the token. Lock invariant: "
-        "before shutdown every registered non-internal call has its token in the table, after shutdown none has. The genuine defect found (send completed a call again after a failed write) is repaired by a fix: commit.",
+        "before shutdown every registered non-internal call has its token in the table and a non-nil Done channel (done() requires it, so a call that could never be signalled is rejected at the front-end), after shutdown none has its token there. The genuine defect found (send completed a call again after a failed write) is repaired by a fix: commit.",
    note=TRUST+"'Eventually completes' (no leak to a caller that waits forever) needs reader progress and is not decided; Done channels are assumed to have room (as the property states); stream-internal calls (open/stream messages) are exempt from the token discipline; "
-        "ghost token creation at the front-ends and the sweep's take-over are ghost updates written by hand (listed in the evidence).",
+        "ghost token creation at the front-ends and the sweep's take-over are ghost updates written by hand (listed in the evidence); Call.Done and Call.upgrade are assumed not to be rewritten while the call is registered (no ownership obligation on those two fields).",
    design="5/C02", technique="contract-based deductive verification: linear ghost tokens under a lock invariant (token tables), ownership obligations on field writes, z3"),
  "C03": dict(
    text="Deductive proof of the safety core: the reader's exit sets shutdown and completes every registered call with a non-nil error in one critical section (loop invariant over the map enumeration), send refuses with ErrShutdown whenever it sees shutdown or closing under the lock "
@@ -91,7 +91,7 @@ claimed = {
    design="5/C06", technique="contract-based deductive verification: call-site assertions over ghost error text, token ownership, z3"),
  "C10": dict(
    text="Deductive proof of the safety core: stream.stop sets the closed flag under the stream mutex and broadcasts, Close stops then calls the close hook, WriteMessage refuses after closed; the client reader's exit stops every registered stream (loop invariant), "
-        "ServeCodec's teardown closes every server stream of the connection exactly via the streams table, the close-stream request closes only a registered stream (nil-safe) and is answered.",
+        "ServeCodec's teardown closes every server stream of the connection exactly via the streams table, the close-stream request closes only a registered stream (nil-safe) and is answered; wait-group balance of ServeRequest: it calls wg.Add(1) exactly once for every task it schedules with the wait group, each such task (and handleRequest given a wait group) calls Done exactly once, so teardown's wg.Wait() is not left waiting by a missing Done or a surplus Add.",
    note=TRUST+"Promptness/'no handler stays blocked' is liveness (sync.Cond wake-up is assumed). stream.ReadMessage waits only when it has seen the closed flag clear since it last held the lock (Cond.Wait modelled as unlock+lock); the poll-mode end-of-connection branch of listen is under contract: the genuine defect found there (streams never stopped) is repaired by a fix: commit. Server.Close/listen's accept loop are not under contract.",
    design="5/C10", technique="contract-based deductive verification: lock invariants, loop invariants, z3"),
  "C11": dict(
@@ -106,7 +106,7 @@ claimed = {
    design="5/C19", technique="contract-based deductive verification: ghost counters, ownership obligations, bounds obligations, z3"),
  "C20": dict(
    text="Deductive proof of the safety core for Conn, Client and the per-connection server loop: Conn.Close closes the codec exactly when closing was not yet set and reports ErrShutdown otherwise, the reader's exit closes every per-connection queue it owns, "
-        "NewConnWithCodec starts exactly one reader on a fresh connection, ServeCodec and the poll-mode end-of-connection branch close their codec exactly once and every stream and queue of the connection, Transport.Close closes its done channel at most once and drains every idle queue, Client.Close drains all waiters and closes done at most once.",
+        "NewConnWithCodec starts exactly one reader on a fresh connection, ServeCodec and the poll-mode end-of-connection branch close their codec exactly once and every stream and queue of the connection, Transport.Close closes its done channel at most once and drains every idle queue, Client.Close drains all waiters and closes done at most once; ServeRequest keeps the wait group balanced (one Add per scheduled task that owes one Done), so ServeCodec's wg.Wait() before the codec is closed can return.",
    note=TRUST+"Transport.Close is under contract (done closed at most once by the winner of the CAS - ghost close token; idle queues drained; lock invariant kept), Server.Close closes every listener under Server.mut (structural), listen's accept loop is not under contract; goroutine exit and Listen returning are liveness of hslam/socket and not decided.",
    design="5/C20", technique="contract-based deductive verification: typestate and ghost counters, z3"),
  "C15": dict(
